@@ -3,6 +3,7 @@ from itertools import takewhile
 from typing import Dict
 
 from parglare import Parser
+from parglare import _verif
 from parglare import termui as t
 from parglare.common import dot_escape, position_context
 from parglare.common import replace_newlines as _
@@ -216,6 +217,8 @@ class GLRParser(Parser):
                 # Can't find lookahead. This head can't progress
                 if debug:
                     h_print("No lookaheads found. Killing head.")
+        if _verif.ON:
+            _verif.emit("glr_scan", parser=self)
 
     def _actor(self, head):
         debug = self.debug
@@ -227,6 +230,8 @@ class GLRParser(Parser):
             else:
                 if not self._in_error_reporting:
                     self._accepted_heads.append(head)
+                    if _verif.ON:
+                        _verif.emit("glr_accept", parser=self, head=head)
                     if debug:
                         a_print("**ACCEPTING HEAD: ", str(head))
                         if self.debug_trace:
@@ -245,6 +250,14 @@ class GLRParser(Parser):
             if update_parent:
                 h_print("\tLimited/update reduction due to new path addition.")
 
+        if _verif.ON:
+            _verif.emit(
+                "glr_reductions_enter",
+                parser=self,
+                head=head,
+                production=production,
+                update_parent=update_parent,
+            )
         states_traversed = self._states_traversed
         prod_len = len(production.rhs)
         if prod_len == 0:
@@ -320,6 +333,9 @@ class GLRParser(Parser):
                             last_parent.end_position,
                         )
 
+        if _verif.ON:
+            _verif.emit("glr_reductions_exit", parser=self, head=head)
+
     def _reduce(
         self,
         head,
@@ -378,6 +394,19 @@ class GLRParser(Parser):
         active_head = self._active_heads.get(state.state_id, None)
         if active_head:
             created = active_head.create_link(parent)
+            if _verif.ON:
+                _verif.emit(
+                    "glr_reduce",
+                    parser=self,
+                    head=head,
+                    root=root_head,
+                    production=production,
+                    node=node_nonterm,
+                    target=active_head,
+                    link=active_head.parents.get(root_head.id),
+                    created=created,
+                    new_head=False,
+                )
             if self.debug and self.debug_trace:
                 self._trace_step(head, parent)
 
@@ -406,6 +435,19 @@ class GLRParser(Parser):
         else:
             # No cycles. Do the reduction.
             new_head.create_link(parent)
+            if _verif.ON:
+                _verif.emit(
+                    "glr_reduce",
+                    parser=self,
+                    head=head,
+                    root=root_head,
+                    production=production,
+                    node=node_nonterm,
+                    target=new_head,
+                    link=new_head.parents.get(root_head.id),
+                    created=True,
+                    new_head=True,
+                )
             if self.debug and self.debug_trace:
                 self._trace_step(head, parent)
             self._for_actor.append(new_head)
@@ -426,6 +468,8 @@ class GLRParser(Parser):
             if self.debug_trace:
                 self._trace_frontier()
 
+        if _verif.ON:
+            _verif.emit("glr_shift_phase", parser=self)
         self._active_heads = {}
 
         # Due to lexical ambiguity heads might be at different positions.
@@ -496,6 +540,16 @@ class GLRParser(Parser):
                 self._active_heads[to_state.state_id] = shifted_head
 
             shifted_head.create_link(parent)
+            if _verif.ON:
+                _verif.emit(
+                    "glr_shift",
+                    parser=self,
+                    head=head,
+                    to_state=to_state,
+                    target=shifted_head,
+                    link=shifted_head.parents.get(head.id),
+                    parent=parent,
+                )
             if self.debug and self.debug_trace:
                 self._trace_step(head, parent)
 
@@ -516,6 +570,8 @@ class GLRParser(Parser):
         """
 
         self._in_error_reporting = True
+        if _verif.ON:
+            _verif.emit("glr_error_enter", parser=self)
 
         # Start with the last shifted heads sorted by position.
         self._last_shifted_heads.sort(key=lambda h: h.position, reverse=True)
@@ -563,6 +619,8 @@ class GLRParser(Parser):
 
         self.for_shifter = []
         self._in_error_reporting = False
+        if _verif.ON:
+            _verif.emit("glr_error_finish", parser=self)
 
     def _do_error_recovery(self):
         """
@@ -596,6 +654,10 @@ class GLRParser(Parser):
                     prints("\tDoing custom error recovery.")
                 successful = self.error_recovery(head, error, self.default_error_recovery)
 
+            if _verif.ON:
+                _verif.emit(
+                    "glr_recover", parser=self, head=head, error=error, successful=successful
+                )
             if successful:
                 error.location.end_position = head.position
                 if debug:
